@@ -115,7 +115,8 @@ func runC05(c *Ctx) {
 			if sr.Layout != "" && (r.Entry.Name == "year2month" || r.Entry.Name == "date") {
 				// default separators iff the rule carries no value: `date=''` means "no separator", not "default"
 				isDefault := !strings.Contains(sr.Layout, cusVal)
-				v, has := t.PC[`eq("",`+cusVal+`)`]
+				v64, has := stringEmptiness(func(k string) (int, bool) { x, ok := t.PC[k]; return x, ok }, cusVal)
+				v := int(v64)
 				switch {
 				case isDefault && (!has || v != 1):
 					a.bad = append(a.bad, "the default separators are used on a path where the rule's value was not found empty (a rule written with the empty separator '' must not fall back to the default)")
